@@ -111,4 +111,13 @@ PROPS = {
         "trusted_base": BASE_TRUST + ["header tables regenerated from /repo every run (gen/GenHeader.v)"],
         "assumptions": ["the side conditions of the repair theorems (e.g. the defective header's own layout length differs from the file's) are written out in the statements"],
     },
+    "C19": {
+        "kernel_sample": 150,
+        "rule": "systematic sweep of headers: every valid DXGI code x 5 alpha modes, the 27 table FourCCs + 60 boundary/arbitrary u32 FourCCs, every mask row with every one-bit perturbation of its red mask, alpha mask and flags and every bit count; "
+                "plus the C09 generator (constructors, mutated fields, random raw headers); observed: parse verdict, header, PixelInfo::from_header, Format::from_header, layout length; per format: bits per pixel, native colour, channels, precision; "
+                "implementation-only dithering oracle: every encodable format x sizes 1..32 x 6 input colours x {None, Color, Alpha, ColorAndAlpha}: same length, unadvertised groups ignored byte-for-byte, colour-only leaves stored alpha and alpha-only leaves stored colour "
+                "(decoded channel bits for uncompressed formats, block halves for BC2/BC3); distinct = distinct case lines",
+        "trusted_base": BASE_TRUST + ["header and format tables regenerated from /repo every run; decode byte consumption per format is compared by check C06, encode acceptance per size by check C10"],
+        "assumptions": ["dithering independence is established on the implementation (oracle), not proved: the per-channel quantisers are f32 code the model does not cover"],
+    },
 }
